@@ -76,7 +76,7 @@ def healthy(seed, quick):
                               misb=[dict(when='data', nth=3, what=what, arg=arg)], ops=[O('read', blk=nb - 3, n=3), O('read', blk=nb - 2, n=2), O('read', blk=nb - 3, n=4), O('read', blk=1, n=1)], oor=True))
     # card-specific data registers of every shape with CRC off (the two check bytes behind the register are on the bus all the same)
     for kind, lo in (('sdhc', 7000), ('sd1', 3000)):
-        for cs in range(lo, lo + (140 if quick else 1024)):
+        for cs in range(lo, lo + (700 if quick else 4096)):
             k += 1
             csd = dict(ver=1, c_size=cs) if kind == 'sdhc' else dict(ver=0, c_size=cs % 4096, mult=5, bl=9)
             S.append(dict(id='H%d-csd-%s-%d' % (k, kind, cs), kind=kind, crc=False, csd=csd, timing=dict(resp=0, tok=1, busy=1, acmd41=0), seed=seed * 1000 + k,
